@@ -142,55 +142,60 @@ theorem callbacks_each_once (t0 : Nat) (evs : List Ev) (hr : (runs (World.init t
 
 /-! ### (2b) callbacks that raise or re-enter  (`callR`: `__call__` alone, any callbacks)
 
-The clause "every registered callback runs exactly once" is proved above for callbacks that return.  With a
-callback that *raises* the pinned code does not deliver it: the loop in `__call__` is left at the raising
-callback, the callbacks registered after it are never run (the registry entry is gone, `__call__` is not
-entered again) and the list is not cleared.  Stated here in full, with the counterexample and the part that
-does hold. -/
+The worlds above take callbacks to return.  `callR` is `__call__` with callbacks that may raise and may
+re-enter (register more callbacks, read the value, issue a request from inside); which of its two loops the
+source has is *measured* on every run (`Gen.Async.callbacksAllRun`). -/
 
-/-- the clause at full strength, for one arrival: every registered callback runs -/
+/-- **obligation on the source** (regenerated from /repo on every run): `__call__` runs every callback even when
+one of them raises, clears the list, and re-raises the first error after the loop.  (On a tree whose loop stops
+at the raising callback this is false, and the check reports it with a concrete replay.) -/
+theorem callbacks_all_run : Gen.Async.callbacksAllRun = true := by decide
+
+/-- the clause at full strength, for ALL callbacks — returning, raising, re-entrant: when the reply arrives
+the result is ready with its value, every registered callback has run exactly once, in registration order, each
+followed at once by the callbacks it registered from inside itself; nothing stays stored; and an error of a
+callback surfaces in the serving thread (after all have run) -/
 def C15_callbacks_clause : Prop :=
-  ∀ (now : Nat) (cbs : List Cb) (e : Bool) (v : Nat), ∀ c ∈ cbs,
-    c.id ∈ (callR false now cbs e v).log.map Prod.fst
+  ∀ (now : Nat) (cbs : List Cb) (e : Bool) (v : Nat),
+    callR Gen.Async.callbacksAllRun false now cbs e v
+      = ⟨true, some e, some v, cbs.flatMap (fun x => (x.id, now) :: x.adds.map (fun a => (a, now))), [],
+         cbs.any Cb.raises⟩
 
-/-- **false of the pinned code**: register a callback that raises and then a second one; when the reply arrives
-the second never runs, although the result is ready and the value published -/
-theorem C15_callbacks_counterexample :
-    (callR false 5 [⟨1, true, []⟩, ⟨2, false, []⟩] false 7)
-      = ⟨true, some false, some 7, [(1, 5)], [1, 2], true⟩ ∧ ¬ C15_callbacks_clause := by
-  refine ⟨by decide, ?_⟩
-  intro h
-  have := h 5 [⟨1, true, []⟩, ⟨2, false, []⟩] false 7 ⟨2, false, []⟩ (by simp)
-  revert this
+/-- **Every registered callback runs exactly once, in order — raising ones included.** -/
+theorem C15_callbacks : C15_callbacks_clause := by
+  intro now cbs e v
+  rw [callbacks_all_run]
+  simp [callR, runAll_spec]
+
+/-- what the clause rests on: with the loop that stops at a raising callback (`allRun = false`, the code before
+the repair) it fails — register a callback that raises and then a second one: the second never runs, although
+the result is ready and the value published, and both stay stored -/
+theorem callbacks_lost_without_all_run :
+    callR false false 5 [⟨1, true, []⟩, ⟨2, false, []⟩] false 7 = ⟨true, some false, some 7, [(1, 5)], [1, 2], true⟩
+      ∧ callR true false 5 [⟨1, true, []⟩, ⟨2, false, []⟩] false 7 = ⟨true, some false, some 7, [(1, 5), (2, 5)], [], true⟩ := by
   decide
 
-/-- **what does hold** — callbacks that do not raise (they may re-enter: register more callbacks, read the
-value, issue requests): all run, in registration order, each followed at once by the callbacks it registered
-from inside; the list is cleared; nothing propagates. -/
-theorem C15_callbacks_partial (now : Nat) (cbs : List Cb) (e : Bool) (v : Nat)
+/-- either loop, callbacks that do not raise (they may re-enter): all run, in order, list cleared, nothing
+propagates — the two loops differ only when a callback raises -/
+theorem callbacks_without_raiser (allRun : Bool) (now : Nat) (cbs : List Cb) (e : Bool) (v : Nat)
     (h : ∀ c ∈ cbs, c.raises = false) :
-    callR false now cbs e v
+    callR allRun false now cbs e v
       = ⟨true, some e, some v, cbs.flatMap (fun x => (x.id, now) :: x.adds.map (fun a => (a, now))), [], false⟩ := by
-  simp [callR, runCbs_noraise now cbs [] h]
+  have hany : cbs.any Cb.raises = false := by
+    rw [List.any_eq_false]; intro c hc; simp [h c hc]
+  cases allRun with
+  | true => simp [callR, runAll_spec, hany]
+  | false => simp [callR, runCbs_noraise now cbs [] h]
 
-/-- **what survives a raising callback**: the result is ready and its value available; the callbacks up to
-and including the raising one have run (each with its re-entrant registrations), those after it have not; the
-whole list stays stored; the exception propagates into the serving thread. -/
-theorem raising_callback_outcome (now : Nat) (pre : List Cb) (c : Cb) (post : List Cb) (e : Bool) (v : Nat)
-    (hp : ∀ x ∈ pre, x.raises = false) (hc : c.raises = true) :
-    callR false now (pre ++ c :: post) e v
-      = ⟨true, some e, some v, (pre ++ [c]).flatMap (fun x => (x.id, now) :: x.adds.map (fun a => (a, now))),
-         (pre ++ c :: post).map Cb.id, true⟩ := by
-  simp [callR, runCbs_raiser now pre c post [] hp hc]
-
-/-- with plain callbacks `callR` is the `call` of the single-request worlds -/
-theorem callR_plain_is_call (w : World) (e : Bool) (v : Nat) (hx : w.ar.expired w.now = false) :
-    (call w e v).cbLog = w.cbLog ++ (callR false w.now (w.ar.callbacks.map (fun c => ⟨c, false, []⟩)) e v).log
-      ∧ (call w e v).ar.callbacks = (callR false w.now (w.ar.callbacks.map (fun c => ⟨c, false, []⟩)) e v).stored
+/-- with plain callbacks `callR` is the `call` of the single-request worlds (whichever loop) -/
+theorem callR_plain_is_call (allRun : Bool) (w : World) (e : Bool) (v : Nat) (hx : w.ar.expired w.now = false) :
+    (call w e v).cbLog
+        = w.cbLog ++ (callR allRun false w.now (w.ar.callbacks.map (fun c => ⟨c, false, []⟩)) e v).log
+      ∧ (call w e v).ar.callbacks = (callR allRun false w.now (w.ar.callbacks.map (fun c => ⟨c, false, []⟩)) e v).stored
       ∧ (call w e v).ar.isReady = true := by
   have h : ∀ c ∈ w.ar.callbacks.map (fun c => (⟨c, false, []⟩ : Cb)), c.raises = false := by
     intro c hc; simp at hc; obtain ⟨_, _, rfl⟩ := hc; rfl
-  rw [C15_callbacks_partial _ _ _ _ h]
+  rw [callbacks_without_raiser _ _ _ _ _ h]
   have hm : ∀ l : List Nat, List.map (fun c => (c, w.now)) l = List.flatMap (fun a => [(a, w.now)]) l := by
     intro l; induction l with
     | nil => rfl
